@@ -246,6 +246,13 @@ example : docOk exParams [] [{ exLic with first := textClose }] = false := by de
 example : injOn id [['a'], ['b']] = true := by decide
 example : injOn (fun _ => []) [['a'], ['b']] = false := by decide
 example : ([exRep].map (·.spdxId)).Nodup := by decide
+def exFiles : List FileInput :=
+  [{ name := ['.', '/', 'a'], chk := List.replicate 40 '0', exprKeys := [[['M', 'I', 'T']]], simplified := ['M', 'I', 'T'],
+     copyrightLines := [['x']] },
+   { name := ['.', '/', 'b'], chk := List.replicate 40 '0', exprKeys := [], simplified := [], copyrightLines := [] }]
+example : exFiles.all (fun f => f.chk.length == chkLen) = true := by decide
+example : (exFiles.map (·.name)).Nodup := by decide
+example : injOn id (exFiles.map fun f => f.name ++ f.chk) = true := by decide
 example : BoolExpr.equiv (.and (.atom ['a']) (.or (.atom ['a']) (.atom ['b']))) (.atom ['a']) = true := by decide
 example : BoolExpr.equiv (.or (.atom ['a']) (.atom ['b'])) (.atom ['a']) = false := by decide
 
